@@ -17,6 +17,9 @@ def sims(ctx):
                  gst=1000, chaos=600, drop=20, dup=20, run_ms=9000),
             dict(name="crash6", stakes=[1, 1, 1, 1, 1, 1], byz=[5], byz_mode="spam", crashed=[2],
                  crash_at=2500, seed=ctx.seed + 2, gst=3000, chaos=1200, drop=50, run_ms=8000),
+            # the same stake ratios at the top of the u64 range (total 1.75e19 < 2^64)
+            dict(name="equiv4_big", stakes=[2, 2, 2, 1], stake_scale=25 * 10**17, byz=[3], byz_mode="equivocate",
+                 seed=ctx.seed + 4, gst=1000, chaos=600, drop=20, dup=20, run_ms=7000),
         ]
     out = []
     for i in range(10):
@@ -27,6 +30,8 @@ def sims(ctx):
         out.append(dict(name=f"six_{i}", stakes=[1, 1, 1, 1, 1, 1], byz=[(i % 6)], byz_mode=("equivocate" if i % 2 == 0 else "spam"),
                         crashed=[(i + 3) % 6], crash_at=1000 * i, seed=ctx.seed + 40 + i, gst=4000,
                         chaos=2000, drop=100, dup=50, run_ms=11000))
+    out.append(dict(name="equiv4_big", stakes=[2, 2, 2, 1], stake_scale=25 * 10**17, byz=[3], byz_mode="equivocate",
+                    seed=ctx.seed + 4, gst=1000, chaos=600, drop=20, dup=20, run_ms=12000))
     for i in range(4):
         out.append(dict(name=f"seven_{i}", stakes=[3, 2, 2, 1, 1, 1, 1], byz=[3 + i % 4], byz_mode="spam",
                         crashed=[(i + 5) % 7 if (i + 5) % 7 > 2 else 6], crash_at=2000,
@@ -53,7 +58,8 @@ def run(ctx):
     rel = lambda fp, fields: any(f.startswith("ev.") or f == "panic" for f in fields)
     P.run_model(ctx, "pool_s2n", [2, 2, 1], 0, 7,
                 c06.scenarios(["notar", "skip", "sf"], ["notar", "ff"], sibling=["ff", "nf"]),
-                c06.INVS, rel, sample=(90000 if ctx.tier == "quick" else 1000000))
+                c06.INVS, rel, sample=(90000 if ctx.tier == "quick" else 1000000),
+                scale=3 * 10**18, scale_sample=(40000 if ctx.tier == "quick" else 300000))
     # 3. code level, system: real nodes under adversarial schedules are behaviours of the abstract protocol
     for sc in sims(ctx):
         name = sc.pop("name")
